@@ -119,7 +119,8 @@ def explore_case(pid, expr, expected, acc, deviations=1, full=False):
             singles.append((i, alt))
     runs = [dict([s]) for s in singles]
     if deviations >= 2:
-        for (i, a), (j, b) in itertools.combinations(singles, 2):
+        red = [(i, alt) for i, n in enumerate(points) for alt in vset.alternatives(n, False)]
+        for (i, a), (j, b) in itertools.combinations(red, 2):
             if i != j:
                 runs.append({i: a, j: b})
     for ch in runs:
@@ -304,7 +305,12 @@ def run_C06(run):
     thorough = run.tier == 'thorough'
     cases = c06_cases(run.tier)
     dev = 2 if thorough else 1
-    accs = common.pmap(_task_c06, [(c, dev, thorough) for c in common.chunks(cases, 400)])
+    accs = common.pmap(_task_c06, [(c, 1, thorough) for c in common.chunks(cases, 400)])
+    if thorough:
+        # two deviations on the metacharacter core: every pair and triple over the class metacharacters + 'a'
+        core = [c for c in cases if c[0].startswith(('AnyFrom(', 'AnyButFrom(')) and c[0].count(',') <= 2
+                and all(ch in "\\]^[-/$.a'," + ' ()AnyFromBut' for ch in c[0])]
+        accs += common.pmap(_task_c06, [(c, 2, False) for c in common.chunks(core, 20)])
     if thorough:
         ranges = [(i, min(i + 0x2000, 0x110000)) for i in range(0, 0x110000, 0x2000)]
     else:
@@ -330,8 +336,8 @@ def run_C06(run):
         'exhaustive': True,
         'bounds': {'codepoints_single': 'all' if thorough else 'U+0000..U+2FFF + plane boundaries',
                    'pairs_alphabet': len(ALPHA44), 'triples_alphabet': len(ALPHA16), 'ascii_ranges': '95 x 95 ordered pairs',
-                   'order_deviations': dev,
-                   'order_alternatives': 'all permutations for sets of <= 5 elements' if thorough else
+                   'order_deviations': '1 everywhere' + (', 2 on the metacharacter core (reduced family)' if thorough else ''),
+                   'order_alternatives': 'all permutations for sets of <= 5 elements (single deviations)' if thorough else
                    'reversal, element-to-front, element-to-back, adjacent swap'},
     }
     return cov, ['code points that only Unicode-aware \\d \\s \\w add are masked out, as the property states',
@@ -531,7 +537,8 @@ def c07_case(pid, expr, opinfo, acc, deviations, full=False):
             singles.append((i, alt))
     runs = [dict([s]) for s in singles]
     if deviations >= 2:
-        for (i, a), (j, b) in itertools.combinations(singles, 2):
+        red = [(i, alt) for i, n in enumerate(sched.points) for alt in vset.alternatives(n, False)]
+        for (i, a), (j, b) in itertools.combinations(red, 2):
             if i != j:
                 runs.append({i: a, j: b})
     seen = set()
